@@ -104,6 +104,47 @@ def type_array_fanout(doc, q, prefix=""):
     return False
 
 
+def arrays_crossed(v, segs):
+    """largest number of arrays a walk along segs passes *through* (with segments left over) in the encoded value v"""
+    if not segs:
+        return 0
+    t = v.get("t")
+    if t == "doc":
+        for k, x in v["f"]:
+            if k == segs[0]:
+                return arrays_crossed(x, segs[1:])
+        return 0
+    if t == "arr":
+        best = 0
+        if segs[0].isdigit() and int(segs[0]) < len(v["a"]):
+            best = arrays_crossed(v["a"][int(segs[0])], segs[1:])
+        for x in v["a"]:
+            if x.get("t") == "doc":
+                best = max(best, arrays_crossed(x, segs))
+            elif x.get("t") == "arr":
+                best = max(best, 1)
+        return 1 + best
+    return 0
+
+
+def size_double_fanout(doc, q, prefix=""):
+    """does the filter contain $size on a path that passes through two or more arrays of doc (KF-C10-3)"""
+    if q.get("t") == "arr":
+        return any(size_double_fanout(doc, x, prefix) for x in q["a"])
+    if q.get("t") != "doc":
+        return False
+    for k, x in q["f"]:
+        if k == "$size":
+            if prefix and arrays_crossed(doc, prefix.split(".")) >= 2:
+                return True
+        elif k.startswith("$"):
+            if size_double_fanout(doc, x, prefix):
+                return True
+        elif size_double_fanout(doc, x, (prefix + "." + k) if prefix else k):
+            return True
+    return False
+
+
 def run(tier, replay):
     c = V.Check("C10", tier, "model_checking")
     work = V.scratch()
@@ -164,6 +205,8 @@ def run(tier, replay):
                 key = "match:ref-kf-deps:jsonSchema"
             if b["what"] == "ref" and type_array_fanout(e["doc"], e["q"]):
                 key += ":type-array-fanout"
+            elif b["what"] == "ref" and size_double_fanout(e["doc"], e["q"]):
+                key += ":size-double-fanout"
             what = "mongokit.Match(%s, %s) = %s but %s says %s" % (
                 show(e["doc"]), show(e["q"]), e["res"],
                 "the reference semantics (MatchRef, core domain)" if b["what"].startswith("ref") else "the specification (MatchImpl)", b["exp"])
